@@ -7,7 +7,7 @@
 set -u
 id=$1; src=$2
 dst=/verif/benign/$id; mkdir -p $dst
-cp $src/patch.diff $dst/patch.diff; cp $src/meta.json $dst/agent_meta.json 2>/dev/null
+if [ "$(realpath $src)" != "$(realpath $dst)" ]; then cp $src/patch.diff $dst/patch.diff; cp $src/meta.json $dst/agent_meta.json 2>/dev/null; fi
 cp=/tmp/bn_$id; rm -rf $cp; mkdir -p $cp
 git -C /repo archive HEAD | tar -x -C $cp
 ( cd $cp && git init -q . 2>/dev/null; git apply --unsafe-paths $dst/patch.diff 2>/dev/null || patch -p1 -s < $dst/patch.diff ) || { echo "patch does not apply"; exit 4; }
